@@ -15,7 +15,9 @@ EXTENDS Writer, Json
 \* two of its own sub-directories): a version is everything the output depends on, the directory arguments included
 \* v11: nothing but constants, one per source file, all in one crate: whatever orders the items of a crate has to order these too
 \* (for a backend without constants the version is a failing one; the harness says so per language)
-MCVersions == {"v1", "v2", "v3", "v4", "v5", "v6", "v7", "v8", "v9", "v10", "v11"}
+\* v12: the sources of v3 under a configuration that changes NOTHING but the helper file (the constraints of the unit helper type):
+\* every module file of v3 is up to date, the helper file is not
+MCVersions == {"v1", "v2", "v3", "v4", "v5", "v6", "v7", "v8", "v9", "v10", "v11", "v12"}
 MCExtends == {<<"A1", "A9">>}
 MCFails == [v \in MCVersions |-> v = "v6"]
 MCGen == [v \in MCVersions |->
@@ -29,12 +31,15 @@ MCGen == [v \in MCVersions |->
       [] v = "v8" -> [a |-> "A8", b |-> "B8"]
       [] v = "v9" -> [a |-> "A9", b |-> "B1"]
       [] v = "v10" -> [a |-> "A10", b |-> "B10"]
-      [] v = "v11" -> [a |-> "A11"]]
+      [] v = "v11" -> [a |-> "A11"]
+      [] v = "v12" -> [a |-> "A1", b |-> "B3", codable |-> "CV12"]]
 \* bounds of the enumeration handed to the real binary (the model configurations fixed / bug / eager / prefix are unbounded):
 \* at most MaxDistinct different versions per history, and a history that starts on a placeholder has at most MaxAfterTouch runs
 CONSTANTS MaxDistinct, MaxAfterTouch
-RunsOf(h) == SelectSeq(h, LAMBDA x : x # "touch")
-HistBound == /\ Cardinality({hist[k] : k \in 1..Len(hist)} \ {"touch"}) <= MaxDistinct
+RunsOf(h) == SelectSeq(h, LAMBDA x : x \notin {"touch", "remove"})
+HistBound == /\ Cardinality({hist[k] : k \in 1..Len(hist)} \ {"touch", "remove"}) <= MaxDistinct
+             /\ Cardinality({k \in 1..Len(hist) : hist[k] = "remove"}) <= 1
+             /\ (\E k \in 1..Len(hist) : hist[k] = "remove") => (Len(RunsOf(hist)) <= 2 /\ hist[1] # "touch")
              /\ (hist # <<>> /\ hist[1] = "touch") => Len(RunsOf(hist)) <= MaxAfterTouch
 EmitHistory == HistBound => PrintT(<<"REPLAY", ToJson([history |-> hist])>>)
 =============================================================================
